@@ -7,7 +7,7 @@
  *             OP 1  l2cap_output poll into an exact-size buffer of OUTCAP bytes
  *             OP 2  l2cap_input with a command of N bytes (exact-size object), code by CLS: 0 -> 0x01 Command Reject,
  *                   1 -> 0x12 Connection Parameter Update Request, 2 -> 0x13 Connection Parameter Update Response,
- *                   3 -> any other code (symbolic); identifier, length field, payload symbolic
+ *                   3 -> any other code (symbolic), 4 -> any code (symbolic; quick tier); identifier, length field, payload symbolic
  *   MODE 1  base case (Inv after construction) + history of K symbolic operations from construction against a black box model:
  *           identifiers are taken from the transmitted requests, not from the object (commands have N bytes, all symbolic)
  *
@@ -103,11 +103,10 @@ void harness(void)
         const unsigned other = in_u8();
         if (opc == 2 && n >= 1) {
             if (cls == 0) cmd[0] = 0x01; else if (cls == 1) cmd[0] = 0x12; else if (cls == 2) cmd[0] = 0x13;
-            else { ASSUME(other != 0x01 && other != 0x12 && other != 0x13); cmd[0] = (uint8_t)other; }
+            else if (cls == 3) { ASSUME(other != 0x01 && other != 0x12 && other != 0x13); cmd[0] = (uint8_t)other; }
+            /* cls == 4: the code stays fully symbolic */
         }
         const unsigned in_id = n >= 2 ? cmd[1] : 0;
-        VF_KNOWN_FINDING(response_identifier_not_checked,
-            opc == 2 && st0 == SENT && n >= 1 && cmd[0] == 0x13 && (n < 2 || in_id != id0));
 
         vf_sig_set_state(st0, id0, par0);
         int st1; unsigned id1;
@@ -194,8 +193,6 @@ void harness(void)
                 for (unsigned i = 0; i < MAXN; ++i) if (i < n) cmd[i] = cmds[k][i];
                 const int matching = m_st == SENT && n >= 2 && cmd[0] == 0x13 && cmd[1] == m_out_id;
                 const int correct_length = n == 6 && cmd[2] == 2 && cmd[3] == 0;
-                VF_KNOWN_FINDING(response_identifier_not_checked,
-                    m_st == SENT && n >= 1 && cmd[0] == 0x13 && (n < 2 || cmd[1] != m_out_id));
                 unsigned long sz = INCAP;
                 vf_sig_input(cmd, n, out, &sz);
                 int accepted = 0;
